@@ -181,7 +181,7 @@ def coq_makefile():
             raise RuntimeError("coq_makefile failed: " + out)
 
 
-def coq_make(targets=None, timeout=3000):
+def coq_make(targets=None, timeout=1500):
     """Full .vo build (never -vos/-vok) of the given targets (default: everything)."""
     with Lock("coq"):
         coq_makefile()
